@@ -142,7 +142,7 @@ Fixpoint scan_loop {St : Type} (fuel : nat) (data : list N) (start limit : N)
           | UvShort => (0, inl O)
           | UvOver k => (0, inr k)
           end in
-        let value' := if pos =? start then x else (value + x) mod two64 in
+        let value' := if pos =? start then x else wrap64 (value + x) in
         let '(s', stop) := fn s value' pos in
         if stop then Ok s'
         else match adv with
@@ -281,7 +281,7 @@ Definition bi_next (r : breader) (it : biter) : res (biter * bool) :=
   match uvarint buf with
   | UvOk v n =>
       do r0 <- idx (br_restarts r) rp;
-      let val := if N.of_nat dp =? r0 then v else (bi_id it + v) mod two64 in
+      let val := if N.of_nat dp =? r0 then v else wrap64 (bi_id it + v) in
       let nrp := match nth_error (br_restarts r) (S rp) with   (* rp < len-1 && ... *)
                  | Some r1 => if N.of_nat (dp + n) =? r1 then S rp else rp
                  | None => rp
@@ -318,7 +318,7 @@ Fixpoint seek_loop (fuel : nat) (start limit : nat) (id : N)
     | S f =>
         match uvarint buf with
         | UvOk x n =>
-            let result' := if Nat.eqb pos start then x else (result + x) mod two64 in
+            let result' := if Nat.eqb pos start then x else wrap64 (result + x) in
             let pos' := (pos + n)%nat in
             if id <? result' then Ok (SFound pos' result')
             else seek_loop f start limit id pos' (skipn n buf) result'
